@@ -301,9 +301,11 @@ def run(repo: Repo, ctx) -> None:
                f'multitenant {mname} receives {ps[:2]}, call_for_client '
                f'passes (client_id, dbname)', wf.loc, sample=ps[:2])
         # the state used is the client's, the db is the named one
-        txt = norm(wf.node)
-        ok = 'client_schema = clients[client_id]' in txt and \
-            'db = client_schema.dbs[dbname]' in txt
+        from ..model import inline_locals
+        want = f'clients[{ps[0]}].dbs[{ps[1]}]'
+        ok = any(isinstance(x, ast.Subscript) and
+                 inline_locals(wf.node, x) == want
+                 for x in ast.walk(wf.node))
         ctx.ob('C17.R1', f'multitenant_worker.{mname}:lookup', ok,
                'state is not looked up by (client_id, dbname)', wf.loc,
                sample='clients[client_id].dbs[dbname]')
@@ -651,10 +653,12 @@ def run(repo: Repo, ctx) -> None:
         f = repo.func(f'{wmod}.compile_in_tx')
         ctx.saw(f)
         g = CFG(f.node)
-        uses = [n.id for n in g.nodes if n.kind == 'stmt' and
-                norm(n.ast) == 'cstate = LAST_STATE']
-        tests = [t.id for t in g.nodes if t.kind == 'test' and norm(t.ast)
-                 == 'cstate == state.REUSE_LAST_STATE_MARKER']
+        uses = [n.id for n in g.nodes if n.kind == 'stmt' and isinstance(
+            n.ast, ast.Assign) and norm(n.ast.value) == 'LAST_STATE']
+        tgts = {norm(g.nodes[u].ast.targets[0]) for u in uses}
+        tests = [t.id for t in g.nodes if t.kind == 'test' and any(
+            norm(t.ast) == f'{v} == state.REUSE_LAST_STATE_MARKER'
+            for v in tgts)]
         ok = bool(uses) and all(any(g.edge_dominates(t, 'T', u)
                                     for t in tests) for u in uses)
         ctx.ob('C17.R5', f'{wmod.split(".")[-1]}.compile_in_tx:reuse', ok,
@@ -888,16 +892,18 @@ def _multitenant_sender(repo: Repo, ctx) -> None:
            'invalidation) before anything else', cfc.loc,
            sample='__sync__(client_id, pickled_schema, invalidation)')
     arm = _if_on(cfc.node.body, 'msg is None')
-    ok = arm is not None and [norm(x) for x in arm.body] == [
-        'methname = args[0]', 'dbname = args[1]', 'args = args[2:]']
+    va = cfc.node.args.vararg.arg if cfc.node.args.vararg else 'args'
+    ok = arm is not None and [
+        norm(x.value) for x in arm.body if isinstance(x, ast.Assign)] == [
+        f'{va}[0]', f'{va}[1]', f'{va}[2:]']
     ctx.ob('C17.R1', 'multitenant_worker.call_for_client:direct-arm', ok,
            'direct arm does not unpack (methname, dbname, rest) from the '
            'positions the pool sends them in', cfc.loc,
            sample='methname=args[0]; dbname=args[1]; args=args[2:]')
     # forwarded arm: a regular-worker message [dbname, 5 components, ...]
-    fw = [norm(x) for x in (arm.orelse if arm is not None else [])]
-    ok = 'dbname = args[0]' in fw and \
-        f'args = args[{1 + len(COMPONENTS)}:]' in fw
+    fw = [norm(x.value) for x in (arm.orelse if arm is not None else [])
+          if isinstance(x, ast.Assign)]
+    ok = f'{va}[0]' in fw and f'{va}[{1 + len(COMPONENTS)}:]' in fw
     ctx.ob('C17.R1', 'multitenant_worker.call_for_client:forwarded-arm', ok,
            f'forwarded arm does not strip dbname + {len(COMPONENTS)} state '
            f'slots: {fw}', cfc.loc, sample=fw[-2:])
